@@ -588,6 +588,7 @@ func (e *Engine) wfSlice(st *State, s *Term) *Term {
 		tb.BVCmp("bvsle", e.sCap(s), lim), tb.BVCmp("bvsle", e.sOff(s), lim),
 		tb.IntCmp("<", tb.RootID(e.sBase(s)), st.clock),
 		tb.Not(tb.mk("(_ is lit)", SBool, "", nil, e.sBase(s))),
+		tb.Implies(tb.Eq(e.sBase(s), tb.RefNil()), tb.Eq(e.sCap(s), z)),
 	)
 }
 
@@ -599,6 +600,7 @@ func (e *Engine) wfStr(st *State, s *Term) *Term {
 		tb.BVCmp("bvsle", z, tb.Acc(s, 1)), tb.BVCmp("bvsle", z, tb.Acc(s, 2)),
 		tb.BVCmp("bvsle", tb.Acc(s, 2), lim), tb.BVCmp("bvsle", tb.Acc(s, 1), lim),
 		tb.IntCmp("<", tb.RootID(tb.Acc(s, 0)), st.clock),
+		tb.Implies(tb.Eq(tb.Acc(s, 0), tb.RefNil()), tb.Eq(tb.Acc(s, 2), z)),
 	)
 }
 
@@ -650,8 +652,8 @@ func (e *Engine) execBinOp(fr *Frame, st *State, ins *ssa.BinOp) Val {
 			eq = tb.Eq(e.sBase(s), tb.RefNil())
 		case *types.Signature:
 			eq = tb.Eq(e.term(fr, ins.X), e.term(fr, ins.Y))
-		case *types.Array:
-			eq = e.arrayEq(e.term(fr, ins.X), e.term(fr, ins.Y), xt.Underlying().(*types.Array))
+		case *types.Array, *types.Struct:
+			eq = e.valueEq(fr, st, e.term(fr, ins.X), e.term(fr, ins.Y), xt)
 		default:
 			eq = tb.Eq(e.term(fr, ins.X), e.term(fr, ins.Y))
 		}
@@ -1650,4 +1652,70 @@ func (e *Engine) unbox(ref *Term, sort Sort) *Term {
 		return ref.Args[0]
 	}
 	return tb.App("unbox_"+sn, sort, ref)
+}
+
+
+// litFactsFor returns the content facts of the string literals mentioned in the given terms.
+func (e *Engine) litFactsFor(ts []*Term) []*Term {
+	used := map[int]bool{}
+	seen := map[*Term]bool{}
+	var rec func(t *Term)
+	rec = func(t *Term) {
+		if seen[t] {
+			return
+		}
+		seen[t] = true
+		if t.Op == "ctor" && t.Name == "lit" && t.Args[0].Op == "intlit" {
+			used[int(t.Args[0].Val.Int64())] = true
+		}
+		for _, a := range t.Args {
+			rec(a)
+		}
+	}
+	for _, t := range ts {
+		rec(t)
+	}
+	var out []*Term
+	lit := e.tb.App("LIT", ArraySort(SRef, SBytes))
+	for i, s := range e.strLitList {
+		if !used[i+1] {
+			continue
+		}
+		arr := e.tb.Select(lit, e.tb.RefLit(i+1))
+		for j := 0; j < len(s); j++ {
+			out = append(out, e.tb.Eq(e.tb.mk("select", SBV8, "", nil, arr, e.tb.BV(int64(j), 64)), e.tb.BV(int64(s[j]), 8)))
+		}
+	}
+	return out
+}
+
+
+// valueEq is Go's == on comparable values: arrays are compared on their index range only.
+func (e *Engine) valueEq(fr *Frame, st *State, a, b *Term, t types.Type) *Term {
+	tb := e.tb
+	switch u := t.Underlying().(type) {
+	case *types.Struct:
+		var cs []*Term
+		for i := 0; i < u.NumFields(); i++ {
+			cs = append(cs, e.valueEq(fr, st, tb.Acc(a, i), tb.Acc(b, i), u.Field(i).Type()))
+		}
+		return tb.And(cs...)
+	case *types.Array:
+		if isAggregate(u.Elem()) {
+			if u.Len() > 16 {
+				unsupported("comparison of large arrays of aggregates")
+			}
+			var cs []*Term
+			for i := int64(0); i < u.Len(); i++ {
+				cs = append(cs, e.valueEq(fr, st, tb.Select(a, tb.BV(i, 64)), tb.Select(b, tb.BV(i, 64)), u.Elem()))
+			}
+			return tb.And(cs...)
+		}
+		return e.arrayEq(a, b, u)
+	case *types.Basic:
+		if u.Info()&types.IsString != 0 {
+			return e.strEq(fr, st, a, b)
+		}
+	}
+	return tb.Eq(a, b)
 }
